@@ -23,6 +23,22 @@ CLAIMS = {
  "C20": ("other", "BOUNDED: the selection predicate extracted from clean_command equals the extension spec for all names up to 5 (thorough: 6) bytes over a fixed alphabet (Kani); the loop frame is a syntactic scan reported as an assumption.", "5.C20", "bounded Kani check of the extracted predicate (K-t) + scan",
          "bounded; file-system effects not modelled"),
 }
+CLAIMS.update({
+ "C02": ("proof", "Static operator table vs run time: Kani proves for every (kind, kind, operator) cell of the real get_output_type table that the static result kind is the kind the run-time operator yields and that no cell is accepted on which the run-time operator cannot succeed; the run-time side of each numeric cell is proved by the C05 obligations (also listed here). Statement-level typing checks of the parser are not yet under contract.", "5.C02", TECH_K + "; " + TECH_V,
+         "only the native operator table and the run-time operators; soundness as one composed theorem is not decided"),
+ "C03": ("proof", "Rejection side of the operator table: every cell on which the run-time operator cannot succeed yields None in the real get_output_type table (Kani, all cells). The per-construct parser checks are not yet under contract.", "5.C03", TECH_K,
+         "only the operator table; diagnostics' position text and the other fault kinds are not decided yet"),
+ "C07": ("proof", "Verus proves that the real make_function handler captures exactly the listed names, each as the same cell the defining scope's lookup (frames first, then its own captures) finds - capture by reference as handle routing.", "5.C07", TECH_V,
+         "cell semantics of the gc crate assumed; frame lookup abstract; composition over call histories not mechanised"),
+ "C11": ("proof", "Verus proves the run-time half on the real process_jump_request: a cached module is never run again (callee precondition), the cached instance itself is returned, a miss caches the result under exactly its key.", "5.C11", TECH_V,
+         "RefCell<HashMap> as &mut finite map; compile-time half (queue, export typing) not covered"),
+ "C15": ("proof", "Verus proves the real BinOp arm of compile_depth: left operand code strictly before right, each once; &&/|| skip offsets; the register holding the left value is not written by the right operand's code; plus the jmp_not_nil handler for `or`.", "5.C15", TECH_V,
+         "recursive compile_depth calls assumed to satisfy the same register frame contract; call/list/map literal order not yet covered"),
+ "C18": ("proof", "Verus proves text writer, transpiler line decoder and transpiler re-encoder against the codec spec (all argument strings), line integrity (no raw LF/CR), composed with the C04 reader contract; the opcode table is enumerated exhaustively.", "5.C18", TECH_V,
+         "strings as char sequences; file framing and std split/trim/format contracts assumed"),
+ "C19": ("proof", "Verus proves the real call_lib handler (whole operand stack, in order, unchanged, any kinds; stack cleared; names required) and the routing of library requests in process_jump_request / process_library_jump_request over assumed libloading contracts.", "5.C19", TECH_V,
+         "libloading and the dylib ABI assumed; Function::run's JumpRequest arm not yet covered"),
+})
 PENDING = {}
 props = [json.loads(l)["id"] for l in (V / "properties.jsonl").read_text().splitlines() if l.strip()]
 checks = []
